@@ -33,7 +33,7 @@ class arm_CGen(CGen):
 
             if instr.name.startswith("IT"):
                 assignments = []
-                label = self.lifter.get_instr_label(instr)
+                label = self.lifter.get_loc_key_for_instr(instr)
                 irblocks = []
                 index, irblocks = self.lifter.do_it_block(label, index, block, assignments, True)
                 irblocks_list += irblocks
